@@ -64,7 +64,11 @@ ChildKind(q) ==
       [] q.form \in {"mitl_release", "mitl_box"} -> "MITL_RELEASE"
       [] q.form = "mitl_next" -> "MITL_NEXT"
       [] OTHER -> ""
-WithKinds(S) == {[qq |-> q, root |-> RootKind(q), child |-> ChildKind(q)] : q \in S}
+(* the forms a query builder must accept over the scaffold: all but the symbolic until / weak until / Buechi formulas outside `control:` (the query
+   builder knows them only as game objectives) and a probability bound written without a decimal point (the grammar asks for a floating literal) *)
+Valid(q) == /\ q.form \notin {"until", "wuntil", "buchi"}
+            /\ ~(q.form = "pr_qual" /\ q.prob = "1")
+WithKinds(S) == {[qq |-> q, root |-> RootKind(q), child |-> ChildKind(q), valid |-> Valid(q)] : q \in S}
 
 All == Symbolic \cup SupInf \cup PrQuant \cup PrQual \cup PrCmp \cup Exp \cup Sim \cup Control \cup Learn \cup Strat \cup Mitl
 ASSUME ndJsonSerialize(IOEnv.OUTF, SetToSeq(All))
